@@ -269,12 +269,12 @@ def expected_view(b, cont='  ', wrapped_cont=None):
 
 def main(tier, seed):
     ck = Check('C10', tier, seed)
-    ck.assumptions += ['annotation names are ASCII (str.lower is modelled on ASCII); the deprecated spellings (<...> for parentheses apart, '
-                       'tag-style annotations, @Varargs, Description:) are not part of the grammar under test',
-                       'the line-level state machine of parse_comment_block (identifier, parameters, description, tags, continuation lines) is '
-                       'tied by differential runs on generated blocks in several layouts, not modelled in Coq: stated partial']
-    ck.prove(['gen_c10.py', 'gen_unicode.py'] if os.path.exists(os.path.join(os.path.dirname(__file__), '..', 'translate', 'gen_unicode.py')) else ['gen_c10.py'],
-             models=['Model/C10.vo'])
+    ck.assumptions += ['the fifteen regular expressions of the parser are translated from the compiled pattern objects by way of CPython\'s own '
+                       're._parser; \\s, \\w, \\d, case-insensitive literals, str.lower and str.capitalize are tables computed by the running '
+                       'interpreter (the context-sensitive lower-casing of a final capital sigma is not modelled)',
+                       'the writer (GtkDocCommentBlockWriter.write) is modelled for the layout indent=False']
+    ck.prove(['gen_c10.py', 'gen_unicode.py', 'gen_c10b.py', 'gen_c10v.py'],
+             models=['Model/C10.vo', 'Model/C10B.vo', 'Model/C10BEq.vo', 'Model/C10V.vo'])
     sys.path.insert(0, REPO)
     from giscanner import message
     from giscanner.annotationparser import GtkDocCommentBlockParser, GtkDocCommentBlockWriter, GtkDocAnnotations
@@ -404,6 +404,25 @@ def main(tier, seed):
                                      detail=dict(first=block_view(first), again=block_view(again)))
             except Exception as e:      # noqa
                 ck.failing_input('the comment writer or the re-parse raises', dict(block=b), detail=repr(e))
+    # ---- (C) the whole parser against the block-level model: the generated blocks in every layout, and comments composed line by
+    # line from everything the state machine distinguishes
+    import c10b
+    rec = c10b.Recorder()
+    rng2 = random.Random(seed * 7919 + 3)
+    items = []
+    for i in range(120 if tier == 'quick' else 1500):
+        b = gen_block(rng2, i)
+        base_layout = dict(newline='\n', indent='', colon=True, wrap_anns=False)
+        lay = rng2.choice([base_layout, dict(base_layout, newline='\r\n'), dict(base_layout, newline='\r'), dict(base_layout, indent='    '),
+                           dict(base_layout, indent='\t'), dict(base_layout, wrap_anns=True), dict(base_layout, colon=False),
+                           dict(base_layout, returns_as_param=True), dict(base_layout, trailing=True), dict(base_layout, wrap_anns=True, cont_tabs=True)])
+        if lay.get('returns_as_param') and any(t['name'] == 'Returns' and '' in t['desc'] for t in b['tags']):
+            lay = base_layout
+        items.append((make_block_text(rng2, b, lay), rng2.choice([1, 100, 5000]), 'model:generated block'))
+    for i in range(500 if tier == 'quick' else 8000):
+        items.append((c10b.wild_block_text(rng2), rng2.choice([1, 17, 4000]), 'model:line soup'))
+    c10b.correspondence(ck, 'C10B_cases', items, parser, rec, clauses=False)
+    message.MessageLogger._instance = None
     return ck.finish(rule='annotation fields: serialized annotation sets (24 list and 2 dictionary annotation names, key=value options, unknown and '
                           'upper-case names) in layouts with varying blank runs, descriptions with and without the separating colon, a '
                           'malformed stream (unbalanced, nested, empty parentheses, key=value in list annotations, text before annotations) and '
